@@ -85,7 +85,9 @@ const V_QUICK: &[&str] = &[
 pub fn alphabet_v(tier: Tier) -> Vec<A> {
     let mut v: Vec<A> = V_QUICK.iter().map(|s| parse(s)).collect();
     // the last two: 12 + 9 fractional digits - their product needs more than 18 although neither operand has 18
-    for s in ["0.333333333333333333", "1.000000000000000001", "0.999999999999999999", "99999999999999999", "1.50", "0.123456789012", "-0.123456789"] {
+    for s in ["0.333333333333333333", "1.000000000000000001", "0.999999999999999999", "99999999999999999", "1.50", "0.123456789012", "-0.123456789",
+              // whole numbers carried with all 18 fractional digits (as arithmetic leaves them)
+              "20.000000000000000000", "-30000.000000000000000000"] {
         v.push(parse(s));
     }
     if tier == Tier::Thorough {
